@@ -265,10 +265,15 @@ pub fn run(ctx: &mut Ctx, _replay: Option<&[String]>) {
         ctx.emit(&format!("c20 invalid {}", name), &fail_tokens(&o)[5..], true, &["invalid-input"]);
     }
     // ---------------------------------------------------------------- ber: one result line per Eb/N0, numbers satisfy the identities
-    for (minc, maxc, stepc) in [(300i64, 500i64, 100i64), (250, 400, 50), (400, 400, 100), (300, 460, 75)] {
+    // ranges whose quotient (max - min) / step has a fractional part >= 1/2 (and an exact tie) must still be floored; at -30 dB every
+    // frame is a frame error, so consecutive points finish with identical frame counts (exactly --frame-errors frames each)
+    for (minc, maxc, stepc, ferrs) in [(300i64, 500i64, 100i64, 20u32), (250, 400, 50, 20), (400, 400, 100, 20), (300, 460, 75, 20),
+            (300, 470, 100, 20), (250, 400, 60, 20), (300, 399, 50, 20), (-3000, -2700, 100, 5), (-3000, -2930, 40, 3)] {
         let of = format!("{}/ber-{}-{}-{}.txt", dir, minc, maxc, stepc);
-        let f = |c: i64| format!("{}.{:02}", c / 100, c % 100);
-        let o = run_bin(&bin, &["ber", &good, "--min-ebn0", &f(minc), "--max-ebn0", &f(maxc), "--step-ebn0", &f(stepc), "--frame-errors", "20",
+        let f = |c: i64| format!("{}{}.{:02}", if c < 0 { "-" } else { "" }, c.abs() / 100, c.abs() % 100);
+        let fe = ferrs.to_string();
+        let (a1, a2, a3) = (format!("--min-ebn0={}", f(minc)), format!("--max-ebn0={}", f(maxc)), format!("--step-ebn0={}", f(stepc)));
+        let o = run_bin(&bin, &["ber", &good, &a1, &a2, &a3, "--frame-errors", &fe,
             "--max-iter", "10", "--decoder", "Minstarapproxi8", "--output-file", &of]);
         let text = std::fs::read_to_string(&of).unwrap_or_default();
         // data lines: after the header separator line
@@ -288,7 +293,7 @@ pub fn run(ctx: &mut Ctx, _replay: Option<&[String]>) {
             let (eb, frames, biterr, ferr, ber, fer) = (p(c[0]), p(c[1]), p(c[2]), p(c[3]), p(c[5]), p(c[6]));
             if !(eb > last_ebn0) { ok = false; }
             last_ebn0 = eb;
-            if ferr != 20.0 || frames < ferr || biterr < ferr { ok = false; }
+            if ferr != ferrs as f64 || frames < ferr || biterr < ferr { ok = false; }
             // printed with 3 significant digits
             if (ber - biterr / (k * frames)).abs() > 0.006 * ber.abs() + 1e-12 || (fer - ferr / frames).abs() > 0.006 * fer.abs() + 1e-12 { ok = false; }
         }
